@@ -473,6 +473,9 @@ class Doist(tyming.Tymist):
         if deeds is None:
             deeds = self.deeds
 
+        marker = (None, None, None)
+        if marker in deeds:  # stopped mid run through so deeds is rotated
+            deeds.rotate(-(deeds.index(marker) + 1))  # restore enter order
         while(deeds):  # .close each remaining dog in deeds in reverse order
             dog, retime, doer = deeds.pop()  # pop it off in reverse (right side)
             if not dog:  # marker deed
@@ -1353,6 +1356,9 @@ class DoDoer(Doer):
         if deeds is None:
             deeds = self.deeds
 
+        marker = (None, None, None)
+        if marker in deeds:  # stopped mid run through so deeds is rotated
+            deeds.rotate(-(deeds.index(marker) + 1))  # restore enter order
         while(deeds):  # .close each remaining dog in deeds in reverse order
             dog, retime, doer = deeds.pop()  # pop it off in reverse (right side)
             if not dog:  # marker deed
